@@ -46,6 +46,16 @@ add("C11", "model_checking",
     "Trusted: mc/ref/aggregate.py (dict of member lists, math.fsum). Values outside the alphabets are not covered; count dtype is not constrained.",
     "bounded exhaustive enumeration of group/pointer assignments against a reference model", "2/C11")
 
+add("C10", "model_checking",
+    "Exhaustive over every rounding specification entry in every parameter file (thorough: re-checked at every later change date) x a value "
+    "alphabet (grid points, half-way points, +-epsilon, +-1 ulp, negatives, large values) pushed through the real rounding wrapper and judged "
+    "by an exact Fractions oracle (on the grid, right direction, error below one step, offset added once, fixed point on grid values); every "
+    "rule carrying a rounding key in all-nodes simulations is judged against its own unrounded output on the same inputs with rounding on and "
+    "off; derived time-unit nodes must equal the converted rounded parent bit for bit; a missing specification must raise.",
+    "Trusted: the oracle `judge` in mc/checks/c10.py and mc/ref/params.py for the statutory spec. Values outside the alphabet and households "
+    "outside the library are not covered.",
+    "bounded exhaustive enumeration (spec versions x value alphabet; rules x households x dates) against an exact-arithmetic oracle", "2/C10")
+
 NOT_APPLICABLE = []
 
 
